@@ -34,8 +34,10 @@ func init() {
 			"its request (zero delay; retry-period bound for the yielding callee), backlog drained after resume <= queue bound, no bubble deadlock, every request answered after a +3 min drain; " +
 			"non-trivial = >=1 message was dropped for a stalled session while a reader had a request in flight in the same round; every 4th case instead: nobody stalled, 6-8 closed-loop sessions " +
 			"(register/unregister churn, subscribe/unsubscribe churn, 1-3 meta API callers, meta event observer, acknowledged publisher, caller of the churned procedure; 30-120 rounds each, GOMAXPROCS 1/2/4/8) " +
-			"released together: every loop must have completed all rounds when the bubble is quiescent (ST5), non-trivial = >=100 rounds completed",
-		Required: []string{"ST1", "ST2", "ST3", "ST4", "ST5"},
+			"released together: every loop must have completed all rounds when the bubble is quiescent (ST5), non-trivial = >=100 rounds completed; every 16th case (engine live): the router behind its real " +
+			"RawSocketServer/WebsocketServer (unix and loopback TCP sockets, OutQueueSize 1/4/16/default) with the project's client transports: a subscriber stops reading, a publisher sends queue+120 acknowledged " +
+			"32 KiB publications in closed loop, the subscriber resumes: events kept for it <= configured queue + 4 + socket buffers (LV1), publisher never disconnected (LV2), order kept (LV3)",
+		Required: []string{"ST1", "ST2", "ST3", "ST4", "ST5", "LV1"},
 		Level:    "exploration",
 	})
 }
@@ -54,6 +56,10 @@ type c07Stalled struct {
 func runC07(c *Case) {
 	if c.Index%4 == 3 {
 		runC07Concurrent(c)
+		return
+	}
+	if c.Index%16 == 5 {
+		runC07Live(c)
 		return
 	}
 	r := c.Rng
